@@ -1,7 +1,7 @@
 import os
 import vlib
 
-THEOREMS = ["Dispenso.Arena." + t for t in ['C37_seq_growBy', 'C37_seq_index_in_buffer', 'C37_seq_mk', 'C37_buffers_ledger', 'C37_pool_inv', 'C37_sem_copyCtor', 'C37_sem_copyAssign', 'C37_sem_moveAssign', 'C37_sem_swap', 'C37_sem_moveCtor', 'C37_sem_growBy', 'C37_conc_inv', 'C37_conc_index_in_buffer', 'C37_conc_local', 'C37_ranges_tile', 'C37_ranges_cover_once', 'C37_grow_returns_claim']]
+THEOREMS = ["Dispenso.Arena." + t for t in ['C37_seq_growBy', 'C37_seq_index_in_buffer', 'C37_seq_mk', 'C37_buffers_ledger', 'C37_pool_inv', 'C37_sem_copyCtor', 'C37_sem_copyAssign', 'C37_sem_moveAssign', 'C37_sem_swap', 'C37_sem_moveCtor', 'C37_sem_growBy', 'C37_conc_inv', 'C37_conc_index_in_buffer', 'C37_conc_local', 'C37_ranges_tile', 'C37_ranges_cover_once', 'C37_grow_returns_claim']] + ["Dispenso.Arena.Tables." + t for t in ['C37_tables_no_uaf', 'C37_tables_retained']]
 
 
 def run(ctx, replay):
@@ -12,6 +12,9 @@ def run(ctx, replay):
                        "grow_by with amounts crossing buffer boundaries (buffer sizes 1,2,4,8) under the deterministic "
                        "scheduler, traces replayed through the Lean protocol model; oracle: returned ranges tile [0,size), "
                        "elements default-constructed, references stable; distinct = distinct request lines / scenario shapes; "
+                       "table layer: readers suspended between the two halves of operator[] (load of the table pointer, read of "
+                       "the table entry) across any number of table re-allocations, compared with the table ledger model "
+                       "(capacity, entries, deleteLater_ size per allocateBuffer; a freed table is an ASan report); "
                        "native layer: the real ThreadSanitizer on the object_arena scenario of harness/native/c10_tsan.cpp "
                        "(readers inside operator[] / getBuffer while other threads grow the arena across table-capacity "
                        "boundaries): a reader that indexes a retired buffer-pointer table races with whoever frees it")
@@ -27,6 +30,16 @@ def run(ctx, replay):
     args = replay["args"] if replay and replay.get("args") else [ctx.seed, 400 if ctx.tier == "quick" else 20000, 14 if ctx.tier == "quick" else 40]
     res = vlib.harness_diff(ctx, "arenaseq", exe, args)
     vlib.standard_verdict(ctx, "arenaseq", res, args, "seq/c37_arena.cpp")
+    # table layer: readers suspended between the two halves of operator[] while the arena grows
+    src3 = os.path.join(vlib.HARNESS, "seq", "c37_tables.cpp")
+    exe3, log = vlib.build_harness(src3, ["-O1", "-g"] + vlib.SAN_FLAGS)
+    if not exe3:
+        ctx.broken.append(("harness:c37_tables", "does not compile against the current tree: " + log[-1500:]))
+        return
+    a3 = [ctx.seed, 400 if ctx.tier == "quick" else 20000, 30 if ctx.tier == "quick" else 80]
+    if not (replay and replay.get("args")):
+        res3 = vlib.harness_diff(ctx, "arenatbl", exe3, a3)
+        vlib.standard_verdict(ctx, "arenatbl", res3, a3, "seq/c37_tables.cpp")
     src2 = os.path.join(vlib.HARNESS, "conc", "c37_arena_conc.cpp")
     exe2, log = vlib.build_dsched_harness(src2)
     if not exe2:
